@@ -13,7 +13,7 @@ LEVEL = "exploration"
 RULE = (
     "Hypothesis generates non-negative frames (classes: all zero, uniform, single hot pixel, random, saturated, huge) on "
     "detectors 1..7 x 1..7 and in-range parameters for each listed library model: simple_collection, simple_conversion "
-    "(binomial on/off, QE from argument or detector, 2-D and multi-wavelength photons), simple_full_well, simple_ipc, cdm "
+    "(binomial on/off, QE from argument or detector, 2-D and multi-wavelength photons), conversion_with_qe_map (per-pixel efficiency maps read from npy / fits files, with pixels of exactly 0 and 1), simple_full_well, simple_ipc, cdm "
     "(parallel/serial, 1..5 trap species, charge injection), simple_persistence and persistence (1..5 species, with/without "
     "capacities, 1..4 repeated steps with generated time steps). Oracles are the accounting identities of the statement. "
     "Non-trivial: the frame has a non-zero pixel and (>=2 species, or a saturated pixel, or >=2 steps, or a boundary "
@@ -173,6 +173,59 @@ def body_conversion(case, rec):
                 ok = bool(np.array_equal(out, want))
             rec.check(ok, "conversion_not_qe_times_photons", lambda: f"qe={qe}: out {out.ravel()[:4]} want {want.ravel()[:4]}")
 
+
+
+# ------------------------------------------------------------------ photo-conversion with a per-pixel efficiency map
+@st.composite
+def qe_map_cases(draw):
+    return {"photon": draw(frames(hi=1e6)), "map_seed": draw(st.integers(0, 10**6)), "map_kind": draw(st.sampled_from(["random", "random", "zeros_and_ones", "uniform"])),
+            "map_level": draw(st.one_of(st.sampled_from([0.0, 1.0, 0.5]), st.floats(0.0, 1.0))), "binomial": draw(st.booleans()),
+            "seed": draw(st.one_of(st.none(), st.integers(0, 2**31))), "det": draw(st.sampled_from(["CCD", "CMOS", "MKID", "APD"])), "fmt": draw(st.sampled_from(["npy", "fits"]))}
+
+
+def body_qe_map(case, rec):
+    from pyxel.models.charge_generation import conversion_with_qe_map
+
+    f = case["photon"]
+    det = _det(case["det"], f)
+    det.empty()
+    ph = make_frame(f)
+    if f["kind"] == "huge":
+        ph = np.minimum(ph, 1e9)
+    det.photon.array = ph.copy()
+    rng = np.random.RandomState(case["map_seed"])
+    if case["map_kind"] == "random":
+        qe = rng.uniform(0.0, 1.0, size=ph.shape)
+        qe.flat[rng.randint(qe.size)] = 0.0
+        qe.flat[rng.randint(qe.size)] = 1.0
+    elif case["map_kind"] == "zeros_and_ones":
+        qe = rng.randint(0, 2, size=ph.shape).astype(float)
+    else:
+        qe = np.full(ph.shape, float(case["map_level"]))
+    path = rec.tmp / f"qe_map.{case['fmt']}"
+    if case["fmt"] == "npy":
+        np.save(path, qe)
+    else:
+        from astropy.io import fits
+
+        fits.PrimaryHDU(qe).writeto(path, overwrite=True)
+    rec.cls("model:conversion_with_qe_map", "binomial" if case["binomial"] else "expectation", f"map:{case['map_kind']}")
+    rec.nt(bool(ph.any()))
+    kw = {"filename": str(path), "binomial_sampling": case["binomial"]}
+    if case["seed"] is not None:
+        kw["seed"] = case["seed"]
+    with rec.must_not_raise("model_failed"):
+        conversion_with_qe_map(det, **kw)
+        out = np.array(det.charge.array, dtype=float)
+        if case["binomial"]:
+            rec.check(bool(np.all(out == np.floor(out))), "conversion_not_integer", f"{out.ravel()[:4]}")
+            rec.check(bool(np.all(out >= 0) and np.all(out <= np.floor(ph))), "conversion_outside_0_to_photons",
+                      lambda: f"qe map: out {out.ravel()[:4]} photons {ph.ravel()[:4]}")
+            rec.check(not out[qe == 0.0].any(), "conversion_outside_0_to_photons", "pixels of efficiency 0 produced charge")
+            rec.check(bool(np.array_equal(out[qe == 1.0], np.floor(ph)[qe == 1.0])), "conversion_outside_0_to_photons", "pixels of efficiency 1 lost photons")
+        else:
+            want = ph * qe
+            rec.check(bool(np.array_equal(out, want)), "conversion_not_qe_times_photons", lambda: f"qe map: out {out.ravel()[:4]} want {want.ravel()[:4]}")
 
 # ------------------------------------------------------------------ full well
 @st.composite
@@ -368,7 +421,7 @@ def body_persistence(case, rec):
             rec.check(bool(np.all(np.isfinite(p_out))), "persistence_not_finite", "")
 
 
-PARTS = {"collection": body_collection, "conversion": body_conversion, "fullwell": body_fullwell, "ipc": body_ipc,
+PARTS = {"collection": body_collection, "conversion": body_conversion, "conversion_qe_map": body_qe_map, "fullwell": body_fullwell, "ipc": body_ipc,
          "cdm": body_cdm, "persistence": body_persistence}
 
 
@@ -377,6 +430,7 @@ def plan(tier):
     return [
         Part(name="collection", kind="gen", strategy=collection_cases, examples=15 if q else 300),
         Part(name="conversion", kind="gen", strategy=conversion_cases, examples=60 if q else 1000),
+        Part(name="conversion_qe_map", kind="gen", strategy=qe_map_cases, examples=25 if q else 400),
         Part(name="fullwell", kind="gen", strategy=fullwell_cases, examples=40 if q else 600),
         Part(name="ipc", kind="gen", strategy=ipc_cases, examples=30 if q else 400),
         Part(name="cdm", kind="gen", strategy=cdm_cases, examples=100 if q else 1500),
